@@ -231,11 +231,15 @@ func RunParent(o ParentOpts) int {
 
 	var mu sync.Mutex
 	confirmedDeaths := 0
+	confirmSlots := make(chan struct{}, 2)
 	handleDeath := func(s *shardState, why string) {
 		s.busy.Store(true)
 		go func() {
 			defer s.busy.Store(false)
 			c := *s.status.Word(0)
+			// at most two confirmations in flight: the others wait and are abandoned once two are confirmed
+			confirmSlots <- struct{}{}
+			defer func() { <-confirmSlots }()
 			mu.Lock()
 			already := confirmedDeaths
 			mu.Unlock()
@@ -249,7 +253,7 @@ func RunParent(o ParentOpts) int {
 				s.done = true
 				return
 			}
-			f, confirmed, reason := confirmDeath(o, c)
+			f, confirmed, reason := confirmDeath(o, c, why == "hung")
 			mu.Lock()
 			defer mu.Unlock()
 			deaths++
@@ -401,7 +405,7 @@ func RunParent(o ParentOpts) int {
 	}
 	verdicts := make([]verdict, len(keys))
 	var wg sync.WaitGroup
-	sem := make(chan struct{}, 8)
+	sem := make(chan struct{}, 3)
 	for i, k := range keys {
 		f := byKey[k]
 		rf := ReplayFile{Property: o.CheckID, Key: f.Key, Desc: f.Desc, Group: f.Group, CaseID: f.CaseID, Type: f.Type, Data: f.Data}
@@ -434,14 +438,21 @@ func RunParent(o ParentOpts) int {
 				verdicts[i].reproduced = true
 				return
 			}
-			ok := true
+			// five replays in fresh processes, side by side
+			var ok atomic.Bool
+			ok.Store(true)
+			var rw sync.WaitGroup
 			for n := 0; n < 5; n++ {
-				if !replayReproduces(o.Exe, path, f.Key) {
-					ok = false
-					break
-				}
+				rw.Add(1)
+				go func() {
+					defer rw.Done()
+					if !replayReproduces(o.Exe, path, f.Key) {
+						ok.Store(false)
+					}
+				}()
 			}
-			verdicts[i].reproduced = ok
+			rw.Wait()
+			verdicts[i].reproduced = ok.Load()
 		}(i, f, path)
 	}
 	wg.Wait()
@@ -581,11 +592,16 @@ func readResult(path string) *Result {
 }
 
 // confirmDeath re-runs exactly one case (by enumeration counter) in isolation, three times.
-func confirmDeath(o ParentOpts, counter uint64) (Failure, bool, string) {
+func confirmDeath(o ParentOpts, counter uint64, hung bool) (Failure, bool, string) {
 	var f Failure
 	reason := ""
+	limit := confirmLimit()
+	if hung && limit > 2*hangLimit() {
+		// the case made no progress for hangLimit in the worker: twice that is enough to see it again
+		limit = 2 * hangLimit()
+	}
 	for n := 0; n < 3; n++ {
-		ctx, cancel := context.WithTimeout(context.Background(), confirmLimit())
+		ctx, cancel := context.WithTimeout(context.Background(), limit)
 		cmd := exec.CommandContext(ctx, o.Exe, "worker", o.CheckID, "--tier", o.Tier, "--seed", strconv.FormatInt(o.Seed, 10),
 			"--shard", "0", "--of", "1", "--only", strconv.FormatUint(counter, 10))
 		var out, errb bytes.Buffer
